@@ -1,0 +1,32 @@
+//go:build verif
+// +build verif
+
+// Package verifhooks re-exports internal packages for an out-of-tree verification harness.
+// It is compiled only with the build tag "verif".
+package verifhooks
+
+import (
+	"github.com/taskctl/taskctl/internal/config"
+	"github.com/taskctl/taskctl/internal/watch"
+	"github.com/taskctl/taskctl/pkg/task"
+)
+
+// Config is internal/config.Config.
+type Config = config.Config
+
+// Loader is internal/config.Loader.
+type Loader = config.Loader
+
+// Watcher is internal/watch.Watcher.
+type Watcher = watch.Watcher
+
+// NewConfig calls config.NewConfig.
+func NewConfig() *Config { return config.NewConfig() }
+
+// NewConfigLoader calls config.NewConfigLoader.
+func NewConfigLoader(dst *Config) Loader { return config.NewConfigLoader(dst) }
+
+// NewWatcher calls watch.NewWatcher.
+func NewWatcher(name string, events, include, exclude []string, t *task.Task) (*Watcher, error) {
+	return watch.NewWatcher(name, events, include, exclude, t)
+}
